@@ -757,6 +757,8 @@ impl<K: KeyT, V: ValT> World<K, V> {
             return;
         }
         let (ma, mb) = (&self.maps[a], &self.maps[b]);
+        acc.out.before = Some(ma.m.verif_state());
+        acc.out.after = Some(mb.m.verif_state());
         let expect = ma.model.len() == mb.model.len() && ma.model.iter().all(|(k, e)| mb.model.get(k).map(|f| f.p) == Some(e.p));
         let co = call(|| {
             let ab = sut(|| ma.m == mb.m);
